@@ -3,6 +3,7 @@ import PlumpyModel.Fault.Proof0
 import PlumpyModel.Fault.Proof6
 import PlumpyModel.Fault.Proof7
 import PlumpyModel.Fault.Proof12
+import PlumpyModel.Fault.Proof15
 /-!
 # C03 — a failure in user code ends the process EXCEPTED, never half-transitioned
 
@@ -245,15 +246,15 @@ theorem C03_pause_play_fault_never_disturbs (P : Prog) (nf : Nat) (plan : Plan) 
   · have := hb.main; rw [hm] at this; cases this
   · exact ⟨hi, hk.tr⟩
 
-/-- The clause "the stepping task returns normally" for hook faults in full: after a transition-hook fault has fired, finitely many
-wake-ups end `step_until_terminated()` normally.  Before the repairs e94edb5 / a130f23 it was false (F28, F30).  Now it is PROVED for
-ten of the twelve transition hooks (`C03_stepper_returns_after_hook_fault_partial`); for `on_terminated` / `on_close` (raising before
-`super()`) it is not: these two hooks also run in the failing path of `transition_to`, where a second failure propagates (the
-alternative `Bad` of the invariant `K`), and the linking invariant is proved only for runs in which that cannot happen.  Missing for
-the full statement: that `Bad` is absorbing for the twins (terminal states final, `fired` monotone), so that the hypothesis on the
-final configuration rules `Bad` out along the whole run.  No counterexample exists among all histories of length ≤ 7 over tick / pause
-/ play / kill / fail / resume / call_soon (failing) of two programs × 8 plans × every transition hook × occurrence ≤ 2 × before / after
-(exhaustive search on the compiled model), and on every case of the harness the clause is decided by the correspondence (`task=`). -/
+/-- The clause "the stepping task returns normally" for hook faults in full: after a transition-hook fault has fired — ANY of the
+twelve transition hooks, any occurrence, before or after `super()` except the two points after `close()` (F18) —, in a run that did
+not end in an error of the state machine itself, finitely many wake-ups end `step_until_terminated()` normally.  Before the repairs
+e94edb5 / a130f23 it was false (F28, F30).  Now it is PROVED: `C03_stepper_returns_after_hook_fault_proved` below.  (The ten hooks
+other than `on_terminated` / `on_close` need no hypothesis on the final configuration: `C03_stepper_returns_after_hook_fault_partial`.
+`on_terminated` / `on_close` raising before `super()` also run in the failing path of `transition_to`, where a second failure
+propagates — alternative `Bad` of the invariant `K`; `Bad` is absorbing, `C03_terminated_with_fault_stays`, so the hypothesis on the
+final configuration excludes it in every earlier one, and in every configuration that is not `Bad` the linking invariant holds,
+`Fault/Proof13 … Proof15`.) -/
 def C03_stepper_returns_after_hook_fault : Prop :=
   ∀ (P : Prog) (nf : Nat) (plan : Plan) (a : Arm) (evs : List Ev), mainHK a.hk = true → afterClose a = false →
     (runX P (initX nf plan (some a)) evs).fired = true → ¬ InternalError (runX P (initX nf plan (some a)) evs) →
@@ -264,7 +265,8 @@ def C03_stepper_returns_after_hook_fault : Prop :=
 `super()`): once the fault has fired, finitely many wake-ups of the stepping task end `step_until_terminated()` normally (its program
 counter is `done`), wherever the task was suspended when the fault fired — inside a step function, on the wait of a WAITING state
 (which the failed transition still completes, repair a130f23), on the pause future (released by `on_terminated`) — and whatever was
-pending or requested.  (`_partial`: `on_terminated` / `on_close` are missing, see `C03_stepper_returns_after_hook_fault`.) -/
+pending or requested.  (`_partial`: no hypothesis on the final configuration, but `on_terminated` / `on_close` are not covered; the
+full statement, all twelve hooks, is `C03_stepper_returns_after_hook_fault_proved`.) -/
 theorem C03_stepper_returns_after_hook_fault_partial (P : Prog) (nf : Nat) (plan : Plan) (a : Arm) (evs : List Ev)
     (hm : mainHK a.hk = true) (hnb : NoTC a)
     (hf : (runX P (initX nf plan (some a)) evs).fired = true) :
@@ -290,6 +292,41 @@ theorem C03_hook_fault_never_reaches_the_stepping_task (P : Prog) (nf : Nat) (pl
     Inv10 (runX P (initX nf plan (some a)) evs).l.c := by
   rw [runX_armed]
   exact (runF_jf hac hnb P _ evs (initX_jf a nf plan)).old
+
+/-- **terminal states are final and a fault that has fired has fired** (runs of the model with a fault, from ANY configuration):
+once the process has terminated, every later configuration of the run has the same state object, and `fired` is never reset.  So
+"the fault fired and the process is EXCEPTED with an error of the state machine itself" (`Bad`) is absorbing: if it holds in some
+configuration of a run it holds in the final one. -/
+theorem C03_terminated_with_fault_stays (P : Prog) (x : FCfg) (evs : List Ev) (ht : terminal x.l.c.st.label = true) :
+    (runF P x evs).l.c.st = x.l.c.st ∧ (x.fired = true → (runF P x evs).fired = true) ∧
+    (InternalError x → InternalError (runF P x evs)) := by
+  obtain ⟨h1, h2⟩ := runF_terminal_final P x evs ht
+  exact ⟨h1, h2, fun ⟨e, he, hs⟩ => ⟨e, he, by rw [h1]; exact hs⟩⟩
+
+/-- **the stepping task returns normally after a hook fault — every transition hook** (`on_terminated` / `on_close` included; the
+statement `C03_stepper_returns_after_hook_fault` in full): for every program, plan, history and every fault point except the two after
+`close()`: once the fault has fired, if the run did not end in an error of the state machine itself, finitely many wake-ups of the
+stepping task end `step_until_terminated()` normally — wherever the task was suspended when the fault fired (inside a step function,
+on the wait of a WAITING state, on the pause future, which the `on_terminated` of the failing path releases when the first
+`on_terminated` raised before doing so). -/
+theorem C03_stepper_returns_after_hook_fault_proved : C03_stepper_returns_after_hook_fault := by
+  intro P nf plan a evs hm hac hf hni
+  have hg := C03_hook_fault_ends_excepted P nf plan a evs hm hac hf (fun _ => hni)
+  rw [runX_armed] at hg hni ⊢
+  exact stepperF_returns_run2 hac P nf plan evs (by rw [hg.1]; exact excepted_terminal _)
+    (fun hb => hni (by obtain ⟨_, _, e, he, hs⟩ := hb; exact ⟨e, he, hs⟩))
+
+/-- **the exception never escapes into the stepping task, and the task is never left blocked — every hook**: for every fault point
+except the two after `close()` (the pause / play hooks included), in every configuration of a run that did not end in an error of
+the state machine itself (hypothesis needed for `on_terminated` / `on_close` only): the linking invariant `Inv10` of C02 holds — the
+stepping task has not crashed; suspended on a waiting future, the current state owns it or it is completed; suspended on a pause
+future, that is the current one or a released one, and on a terminated process it is released. -/
+theorem C03_hook_fault_never_reaches_the_stepping_task_any_hook (P : Prog) (nf : Nat) (plan : Plan) (a : Arm) (evs : List Ev)
+    (hac : afterClose a = false)
+    (hni : (a.hk = .onTerminated ∨ a.hk = .onClose) → ¬ InternalError (runX P (initX nf plan (some a)) evs)) :
+    Inv10 (runX P (initX nf plan (some a)) evs).l.c := by
+  rw [runX_armed] at hni ⊢
+  exact (runF_jf2 hac P nf plan evs (fun hb => hni hb.1 (by obtain ⟨_, _, e, he, hs⟩ := hb; exact ⟨e, he, hs⟩))).old
 
 /-- **`step_until_terminated()` returns, configuration level, every hook**: from ANY terminated configuration of the model with a
 fault in which the stepping task has not crashed and is not blocked on an unreleased future, finitely many wake-ups end it normally
@@ -411,6 +448,28 @@ example : mainHK .exitWaiting = true ∧ NoTC ⟨.exitWaiting, 0, false⟩ ∧
     (runX procC03 (initX 0 [] (some ⟨.exitWaiting, 0, false⟩)) [.tick, .tick, .tick, .fail (.user 9)]).fired = true ∧
     (runX procC03 (initX 0 [] (some ⟨.exitWaiting, 0, false⟩)) [.tick, .tick, .tick, .fail (.user 9)]).l.c.pc = .awaitWaiting 0 :=
   ⟨rfl, by unfold NoTC; decide, by decide +kernel, by decide +kernel⟩
+
+-- non-vacuity of `C03_stepper_returns_after_hook_fault_proved` for the two hooks it adds: `kill()` on the paused process whose
+-- `on_terminated` raises BEFORE `super()` — the fault fires while the stepping task is suspended on the pause future, which the
+-- first `on_terminated` did not get to release; the failing path's `on_terminated` (the fault is spent) releases it: EXCEPTED with
+-- the fault (not an error of the state machine), and the next wake-up ends `step_until_terminated()`
+example :
+    let x := runX procC03 (initX 0 [] (some ⟨.onTerminated, 0, false⟩)) [.tick, .pause, .tick, .kill]
+    mainHK .onTerminated = true ∧ afterClose ⟨.onTerminated, 0, false⟩ = false ∧ x.fired = true ∧
+    x.l.c.st = .excepted faultExc ∧ x.l.c.pc = .awaitPaused 0 ∧ x.l.c.pfs = [true] ∧ (runF procC03 x [.tick]).l.c.pc = .done := by
+  decide +kernel
+
+example : ¬ InternalError (runX procC03 (initX 0 [] (some ⟨.onTerminated, 0, false⟩)) [.tick, .pause, .tick, .kill]) := by
+  intro ⟨e, he, hs⟩
+  have h : (runX procC03 (initX 0 [] (some ⟨.onTerminated, 0, false⟩)) [.tick, .pause, .tick, .kill]).l.c.st = .excepted faultExc := by
+    decide +kernel
+  rw [h] at hs; cases hs; exact faultExc_not_internal he
+
+-- … and `on_close` raising before `super()` in the closing transition of the last step
+example :
+    let x := runX procC03 (initX 0 [] (some ⟨.onClose, 0, false⟩)) [.tick, .tick, .resume (some 7), .tick, .tick]
+    afterClose ⟨.onClose, 0, false⟩ = false ∧ x.fired = true ∧ x.l.c.st = .excepted faultExc ∧ x.l.c.closed = true ∧
+    x.l.c.cleanups = 1 ∧ x.l.c.pc = .done := by decide +kernel
 
 /-- **finding F18 on whole runs (witness)**: `on_terminated` raising AFTER `super()` in the closing transition of the last step: the
 process is EXCEPTED with the fault while its future still holds the result of the FINISHED state it had entered — the two fault points
